@@ -125,3 +125,58 @@ package zap
 //@   ensures #D == 1
 //@   ensures D.ret0[0] != nil ==> result.1 != nil
 //@   ensures result.1 != nil ==> result.0 == 0
+
+// ---------------------------------------------------------------------------
+// logger.go (C05, C06, C07, C15)
+
+//@ spec func overrideHook(def Iface, o Iface) Iface = (o == nil || o == iface(type(zapcore.CheckWriteAction), 0)) ? def : o
+
+//@ func zap.terminalHookOverride
+//@   props C06
+//@   flags nopanic pure
+//@   ensures result == overrideHook(defaultHook, override)
+
+// Logger.check. Meaning of the caller arithmetic (C15): check reports the frame callerSkip
+// frames above the caller of check's caller; Capture(s) reports s frames above Capture's
+// caller (= check), hence the obligation s == callerSkip + 2.
+//@ func (*zap.Logger).check
+//@   props C05 C06 C07 C15
+//@   flags nopanic
+//@   requires log != nil && log.core != nil && log.clock != nil && log.addStack != nil && log.errorOutput != nil
+//@   requires 0 <= log.callerSkip && log.callerSkip <= 1 << 20
+//@   track NOW = invoke zapcore.Clock.Now
+//@   track CK = invoke zapcore.Core.Check
+//@   track CAP = call internal/stacktrace.Capture
+//@   track FF = call (*internal/stacktrace.Formatter).FormatFrame
+//@   track WR = invoke zapcore.Core.Write
+//@   track AS = invoke zapcore.LevelEnabler.Enabled
+//@   ensures #WR == 0
+//@   ensures lvl < zapcore.DPanicLevel && !enabled(old(log.core), lvl) ==> result == nil && #NOW == 0 && #CK == 0 && #CAP == 0
+//@   ensures !(lvl < zapcore.DPanicLevel && !enabled(old(log.core), lvl)) ==> #NOW == 1 && #CK == 1 && CK.recv[0] == old(log.core) && CK.arg1[0] == nil && CK.arg0[0].Level == lvl && CK.arg0[0].Message == msg && CK.arg0[0].LoggerName == old(log.name) && CK.arg0[0].Time == NOW.ret0[0]
+//@   ensures lvl == zapcore.PanicLevel ==> result != nil && result.after == overrideHook(iface(type(zapcore.CheckWriteAction), zapcore.WriteThenPanic), old(log.onPanic))
+//@   ensures lvl == zapcore.FatalLevel ==> result != nil && result.after == overrideHook(iface(type(zapcore.CheckWriteAction), zapcore.WriteThenFatal), old(log.onFatal))
+//@   ensures lvl == zapcore.DPanicLevel && old(log.development) ==> result != nil && result.after == overrideHook(iface(type(zapcore.CheckWriteAction), zapcore.WriteThenPanic), old(log.onPanic))
+//@   ensures #CK == 1 && CK.ret0[0] == nil && !(lvl == zapcore.PanicLevel || lvl == zapcore.FatalLevel || (lvl == zapcore.DPanicLevel && old(log.development))) ==> result == nil
+//@   ensures #CK == 1 && CK.ret0[0] != nil ==> result == CK.ret0[0] && result.ErrorOutput == old(log.errorOutput)
+//@   ensures #CAP <= 1
+//@   ensures #CAP == 1 ==> CAP.arg0[0] == old(log.callerSkip) + 2
+//@   ensures #CK == 1 && CK.ret0[0] != nil ==> #AS == 1 && AS.recv[0] == old(log.addStack) && AS.arg0[0] == lvl
+//@   ensures #CAP == 1 ==> (CAP.arg1[0] == stacktrace.Full <==> AS.ret0[0])
+//@   ensures #CAP == 1 <==> (#CK == 1 && CK.ret0[0] != nil && (old(log.addCaller) || AS.ret0[0]))
+//@   ensures #FF > 0 ==> #AS == 1 && AS.ret0[0]
+
+//@ func (*zap.Logger).Check
+//@   props C05 C06 C15
+//@   flags nopanic
+//@   requires log != nil && log.core != nil && log.clock != nil && log.addStack != nil && log.errorOutput != nil
+//@   requires 0 <= log.callerSkip && log.callerSkip <= 1 << 20
+//@   track C = call (*zap.Logger).check
+//@   ensures #C == 1 && C.recv[0] == log && C.arg0[0] == lvl && C.arg1[0] == msg && result == C.ret0[0]
+
+//@ func (*zap.Logger).Level
+//@   props C05
+//@   flags nopanic
+//@   requires log != nil && log.core != nil
+//@   track LO = call zapcore.LevelOf
+//@   modifies nothing
+//@   ensures #LO == 1 && LO.arg0[0] == log.core && result == LO.ret0[0]
